@@ -86,7 +86,7 @@ def cheap_setting(m, rng):
     if m == "bsdicrypt":
         return base + gen.salt(rng, 4)
     if m in ("yescrypt", "gost_yescrypt"):
-        return base + gen.salt(rng, rng.choice((4, 8, 22)))
+        return base + gen.ysalt(rng, rng.choice((4, 8, 22)))
     return base + gen.salt(rng, rng.choice((4, 8)))
 
 
@@ -966,3 +966,230 @@ def c13(ctx):
                                      "nrbytes_classes": len(nrs), "exhaustive": True,
                                      "predicates": ["Local (fits, token, guard bytes, errno)", "Monotone", "Full", "Enough", "Fault"]})
     return "model_checking", cov, GS_ASSUME
+
+
+# ============================================================================= settings-language family
+def digest_len_of(out, m, plen, slen):
+    if m == "bigcrypt":
+        if plen > 8 and slen <= 13:
+            return 11
+        return len(out) - 2
+    return gen.DIGLEN[m]
+
+
+def hash_alphabet(m):
+    if m == "nt":
+        return "0123456789abcdef"
+    return gen.B64
+
+
+@prop("C01")
+def c01(ctx):
+    quick = ctx.tier == "quick"
+    cfgev = config_event(ctx)
+    E = cfgev["E"]
+    rng = ctx.rng
+    # model-level laws on grammar-directed domains
+    laws = ctx.tlc("SettingsLaws.tla", "SettingsLaws.cfg", workers=4, timeout=900)
+    if laws["violated"] or not laws["ok"]:
+        raise Broken("SettingsLaws: %s\n%s" % (laws["violated"], laws["out"][-1500:]))
+    reqs = []
+    for m in E:
+        sets = gen.valid_settings(m, rng, full=not quick)
+        phs = [b"", gen.rand_phrase(rng, 1), gen.rand_phrase(rng, 8), gen.rand_phrase(rng, 9, False), gen.rand_phrase(rng, 73),
+               gen.rand_phrase(rng, 200)] if quick else gen.phrases(rng, full=False)
+        for s in sets:
+            for ph in (phs if len(s) < 200 else phs[:3]):
+                reqs.append((m, ph, s))
+    cmds = ["obj 0 0 0"] + ["crypt_rn 0 %s %s 32768" % (hx(ph), hx(s)) for (m, ph, s) in reqs]
+    ev1 = ctx.run_xcv(cmds)
+    calls = [e for e in ev1 if e.get("e") == "crypt_rn"]
+    if len(calls) != len(reqs):
+        raise Broken("lost calls")
+    # second pass: H as the setting, and H with its digest part replaced by other text of the alphabet
+    base_index = {id(e): i + 1 for i, e in enumerate(ev1)}
+    cmds2, links = ["obj 1 3 2"], []
+    for (m, ph, s), e in zip(reqs, calls):
+        if not (e["ret"] == "out" and e["out"] and e["out"][0] != 42):
+            continue
+        H = bytes(e["out"]).decode("latin-1")
+        dl = digest_len_of(H, m, len(ph), len(s))
+        variants = [(H, len(H))]
+        alpha = hash_alphabet(m)
+        for _ in range(2 if quick else 4):
+            variants.append((H[:len(H) - dl] + "".join(rng.choice(alpha) for _ in range(dl)), len(H) - dl))
+        if m == "bigcrypt" and dl > 11:
+            variants.append((H[:len(H) - 11] + "".join(rng.choice(alpha) for _ in range(11)), len(H) - 11))
+        for (hs, keep) in variants:
+            fn = rng.choice(("crypt_rn 1 %s %s 32768", "crypt_r 1 %s %s", "crypt - %s %s", "crypt_ra 0 %s %s"))
+            cmds2.append(fn % (hx(ph), hx(hs)))
+            links.append((base_index[id(e)], keep))
+    ev2 = ctx.run_xcv(cmds2)
+    calls2 = [e for e in ev2 if e.get("e") in ("crypt_rn", "crypt_r", "crypt", "crypt_ra")]
+    if len(calls2) != len(links):
+        raise Broken("lost calls in pass 2")
+    for e, (bi, keep) in zip(calls2, links):
+        e["hprev"] = bi + 1       # +1: the config line
+        e["hkeep"] = keep
+    v = judge(ctx, ev1 + ev2, "rt", cfgev)
+    attribute(ctx)
+    cov = mc_coverage(ctx, laws.get("distinct", 1), laws.get("generated", 1), [v], ev1 + ev2,
+                      {"requests": len(reqs), "round_trip_calls": len(links),
+                       "predicates": ["RoundTrip: crypt(P, H) = H and crypt(P, H with digest part replaced) = H",
+                                      "model laws Idem/OnlySetting (SettingsLaws.tla)"]})
+    return "model_checking", cov, ASSUME_COMMON
+
+
+@prop("C06")
+def c06(ctx):
+    quick = ctx.tier == "quick"
+    cfgev = config_event(ctx)
+    E = cfgev["E"]
+    rng = ctx.rng
+    laws = ctx.tlc("SettingsLaws.tla", "SettingsLaws.cfg", workers=4, timeout=900)
+    if laws["violated"] or not laws["ok"]:
+        raise Broken("SettingsLaws: %s" % laws["violated"])
+    cmds = ["hset 0 0 0"]
+    n = 0
+    for m in E:
+        sets = gen.valid_settings(m, rng, full=not quick)
+        for s in sets:
+            for ph in ((b"", gen.rand_phrase(rng, 5), gen.rand_phrase(rng, 20), gen.rand_phrase(rng, 128), gen.rand_phrase(rng, 129))
+                       if quick else gen.phrases(rng)):
+                # the output field holds residue of a longer earlier result or junk: termination must not rely on it
+                r = rng.random()
+                if r < 0.4:
+                    cmds.append("obj 0 %d %d" % (rng.randrange(16), rng.choice((1, 2, 3))))
+                elif r < 0.7:
+                    cmds.append("crypt_rn 0 %s %s 32768" % (hx(b"x"), hx("$6$rounds=1000$" + gen.salt(rng, 16))))
+                fn = rng.choice(("crypt_rn 0 %s %s 32768", "crypt_r 0 %s %s", "crypt - %s %s", "crypt_ra 0 %s %s"))
+                if fn.startswith("crypt -") and r < 0.7:
+                    cmds.append("crypt - %s %s" % (hx(b"x"), hx("$6$rounds=1000$" + gen.salt(rng, 16))))
+                cmds.append(fn % (hx(ph), hx(s)))
+                n += 1
+    ev1 = ctx.run_xcv(cmds)
+    # every distinct successful result is itself accepted as a setting, by checksalt and as a gensalt prefix
+    cmds2, cmds3 = ["obj 0 0 0"], []
+    seen = set()
+    for e in ev1:
+        if e.get("e") in ("crypt_rn", "crypt_r", "crypt", "crypt_ra") and e["ret"] == "out" and e["outk"] == "str" and e["out"] and e["out"][0] != 42:
+            H = bytes(e["out"])
+            if H in seen:
+                continue
+            seen.add(H)
+            if len(seen) % (4 if quick else 1) == 0:
+                cmds2.append("checksalt %s" % hx(H))
+                cmds3.append(gs_cmd("gensalt_rn", H.decode("latin-1"), 0, bytes(rng.randrange(256) for _ in range(20))))
+    ev2 = ctx.run_xcv(cmds2)
+    ev3 = ctx.run_xcv(cmds3)
+    v1 = judge(ctx, ev1 + ev2, "shape", cfgev)
+    vs = judge_gs(ctx, ev3, "gs", cfgev)
+    attribute(ctx)
+    # C06 also owns the gensalt-prefix clause judged by TraceGensalt's Safe predicate
+    for (p, what, payload) in list(ctx.violations):
+        if p == "C10" and what.startswith("Safe"):
+            ctx.violations.append(("C06", what, payload))
+    cov = mc_coverage(ctx, laws.get("distinct", 1), laws.get("generated", 1), [v1], ev1 + ev2,
+                      {"hash_calls": n, "distinct_results": len(seen), "gensalt_prefix_calls": sum(x["cnt"]["calls"] for x in vs),
+                       "predicates": ["Shape", "CanonPrefix", "Checksalt(result) != INVALID", "gensalt(result) selects the same method"]})
+    return "model_checking", cov, ASSUME_COMMON
+
+
+def cost_plus_one(m, s):
+    """the same setting with its cost changed by one step inside the documented range (or None)"""
+    if m in ("sha512crypt", "sha256crypt") and "rounds=1000$" in s:
+        return s.replace("rounds=1000$", "rounds=1001$")
+    if m == "sha1crypt":
+        return s.replace("$sha1$20$", "$sha1$21$")
+    if m == "sunmd5":
+        return s.replace("rounds=1$", "rounds=2$")
+    if m in ("bcrypt", "bcrypt_a", "bcrypt_x", "bcrypt_y"):
+        return s.replace("$04$", "$05$")
+    if m in ("yescrypt", "gost_yescrypt"):
+        return s.replace("j65$", "j75$")
+    if m == "scrypt":
+        return s.replace("$7$56", "$7$66")
+    return None
+
+
+@prop("C03")
+def c03(ctx):
+    quick = ctx.tier == "quick"
+    cfgev = config_event(ctx)
+    E = cfgev["E"]
+    rng = ctx.rng
+    laws = ctx.tlc("SettingsLaws.tla", "SettingsLaws.cfg", workers=4, timeout=900)
+    if laws["violated"] or not laws["ok"]:
+        raise Broken("SettingsLaws: %s" % laws["violated"])
+    cmds = ["logpc 1", "obj 0 0 0"]
+    meta = []          # for each crypt command: index (among crypt commands) of its base, or -1
+    nbase = 0
+    for m in E:
+        s0 = cheap_setting(m, rng)
+        if m == "bsdicrypt":
+            s0 = "_J9.." + gen.salt(rng, 4)
+        lens = (9, 32, 64, 73, 130, 511) if quick else (1, 7, 8, 9, 16, 31, 32, 33, 55, 56, 63, 64, 65, 72, 73, 127, 128, 129, 200, 256, 257, 511)
+        if m in ("scrypt", "yescrypt", "gost_yescrypt", "bcrypt", "bcrypt_a", "bcrypt_x", "bcrypt_y") and quick:
+            lens = (9, 73, 511)
+        for n in lens:
+            P = bytearray(gen.rand_phrase(rng, n, eightbit=(m not in ("bcrypt_x", "bcrypt_a"))))
+            base_i = len(meta)
+            cmds.append("crypt_rn 0 %s %s 32768" % (hx(bytes(P)), hx(s0)))
+            meta.append(-1)
+            nbase += 1
+            pert = []
+            edges = {0, 6, 7, 8, 9, 15, 16, 63, 64, 70, 71, 72, 73, 126, 127, 128, 129, n - 2, n - 1}
+            for pos in range(n):
+                bits = range(8) if (pos in edges or not quick) and m not in ("scrypt",) else [rng.randrange(8)]
+                if quick and pos not in edges and n > 100 and pos % 3:
+                    continue
+                for b in bits:
+                    Q = bytearray(P)
+                    Q[pos] ^= 1 << b
+                    if Q[pos] == 0:
+                        continue
+                    pert.append(bytes(Q))
+            for cut in sorted({1, 7, 8, 9, 71, 72, 73, 127, 128, n - 1} & set(range(0, n))):
+                pert.append(bytes(P[:cut]))                               # truncations
+            for ext in (1, 2):
+                if n + ext <= 511:
+                    pert.append(bytes(P) + gen.rand_phrase(rng, ext))     # extensions
+            for Q in pert:
+                cmds.append("crypt_rn 0 %s %s 32768" % (hx(Q), hx(s0)))
+                meta.append(base_i)
+        # every single-character change of the setting (salt and cost), same phrase
+        P = gen.rand_phrase(rng, 12, eightbit=False)
+        base_i = len(meta)
+        cmds.append("crypt_rn 0 %s %s 32768" % (hx(P), hx(s0)))
+        meta.append(-1)
+        span = cost_span(m, s0.encode("latin-1"))
+        for pos in range(len(s0)):
+            for rep in range(2):
+                c = rng.choice(gen.B64)
+                if c == s0[pos]:
+                    continue
+                if pos in span and not (m == "bsdicrypt" and pos in (1, 2, 4)):
+                    continue
+                t = s0[:pos] + c + s0[pos + 1:]
+                if m == "bsdicrypt" and pos == 4:
+                    t = s0[:pos] + "/" + s0[pos + 1:]          # count + 2^18
+                cmds.append("crypt_rn 0 %s %s 32768" % (hx(P), hx(t)))
+                meta.append(base_i)
+        t = cost_plus_one(m, s0)
+        if t and t != s0:
+            cmds.append("crypt_rn 0 %s %s 32768" % (hx(P), hx(t)))
+            meta.append(base_i)
+    ev1 = ctx.run_xcv(cmds, timeout=1800)
+    calls = [(i, e) for i, e in enumerate(ev1) if e.get("e") == "crypt_rn"]
+    if len(calls) != len(meta):
+        raise Broken("lost calls")
+    pos_of = [i for i, e in calls]
+    for (i, e), b in zip(calls, meta):
+        if b >= 0:
+            e["bprev"] = pos_of[b] + 2          # 1-based, +1 for the config line
+    v = judge(ctx, ev1, "pert", cfgev)
+    attribute(ctx)
+    cov = mc_coverage(ctx, laws.get("distinct", 1), laws.get("generated", 1), [v], ev1,
+                      {"base_requests": nbase, "perturbed_requests": sum(1 for b in meta if b >= 0),
+                       "predicates": ["Distinct: a significant change (Settings!PhraseKey / canonical setting) changes the digest part"]})
+    return "model_checking", cov, ASSUME_COMMON + ["collision resistance of the digests is the oracle for 'took part in the hash'"]
